@@ -204,6 +204,10 @@ static void sc_tcp(char *out)
     la = p_socket_get_local_address(srv, NULL);
     OUT("connect=%d ", p_socket_connect(cli, la, &e)); if (err_is_eintr(e)) OUT("EINTR-ERROR ");
     acc = p_socket_accept(srv, &e); OUT("accept=%d ", acc != NULL); if (err_is_eintr(e)) OUT("EINTR-ERROR ");
+    {   /* asking for the connection again on the connected socket (three times: the first repetition still reports success on Linux) fails at the latest the third time and leaves it connected */
+        PError *e2 = NULL; int k, last = 1; for (k = 0; k < 3; k++) { if (e2) { p_error_free(e2); e2 = NULL; } last = p_socket_connect(cli, la, &e2); }
+        OUT("reconnect-last=%d still-connected=%d ", last, (int)p_socket_is_connected(cli)); if (err_is_eintr(e2)) OUT("EINTR-ERROR "); if (e2) p_error_free(e2);
+    }
     if (acc) {
         p_socket_set_timeout(acc, 3000);
         n = p_socket_send(cli, "hello", 5, &e); OUT("send=%ld ", (long)n);
@@ -242,7 +246,7 @@ static const struct { const char *name; void (*fn)(char *); const char *expect; 
     {"sem-available", sc_sem_avail, "new=1 acquire=1 release=1"}, {"sem-unit-arrives-later", sc_sem_later, "acquire-after-wait=1"},
     {"shm-lock", sc_shm, "new=1 open-existing=1 size=256 same-segment=1 same-lock=1 lock=1 unlock=1 byte=9 names-after-opener-free=11 names-after-owner-free=00"},
     {"ipc-open-create", sc_ipc_open, "open-absent=1 open-present=1 create-present=1"},
-    {"tcp", sc_tcp, "connect=1 accept=1 send=5 wait=1 recv=5[hello] back=2[yo] idle-recv=-1 err=509"},
+    {"tcp", sc_tcp, "connect=1 accept=1 reconnect-last=0 still-connected=1 send=5 wait=1 recv=5[hello] back=2[yo] idle-recv=-1 err=509"},
     {"udp", sc_udp, "idle-wait=0 err=0 send_to=5 receive_from=5[dgram] from-port-ok=1"},
 };
 #define NSC ((int)(sizeof SC / sizeof SC[0]))
